@@ -33,8 +33,18 @@ let rec parse_tt (toks: Stdlib.String.t list) : tt list * Stdlib.String.t list =
   | "P" :: c :: rest -> let (l, r) = parse_tt rest in (TP (punct_of c) :: l, r)
   | "L" :: n :: rest -> let (l, r) = parse_tt rest in
       let n = unesc n in
-      let digits = n <> "" && (let ok = ref true in String.iter (fun c -> if c < '0' || c > '9' then ok := false) n; !ok) && String.length n <= 6 in
-      let lit = if digits then LNat (nat_of_int (int_of_string n))
+      (* an integer literal stands for its value, however it is spelled: `_` separators, radix prefix, type suffix (as rustc reads it) *)
+      let int_value (t: Stdlib.String.t) : int option =
+        if t = "" || t.[0] < '0' || t.[0] > '9' then None else
+        let d = String.concat "" (String.split_on_char '_' t) in
+        let strip d = List.fold_left (fun acc suf -> match acc with Some _ -> acc | None ->
+            let ls = String.length suf and ld = String.length d in
+            if ld >= ls && String.sub d (ld - ls) ls = suf then Some (String.sub d 0 (ld - ls)) else None) None
+            ["usize"; "u128"; "u64"; "u32"; "u16"; "u8"; "isize"; "i128"; "i64"; "i32"; "i16"; "i8"] in
+        let d = match strip d with Some x -> x | None -> d in
+        (try Some (int_of_string d) with _ -> None) in          (* OCaml reads 0x / 0o / 0b itself *)
+      let digits = match int_value n with Some v -> v >= 0 && v <= 999999 | None -> false in
+      let lit = if digits then LNat (nat_of_int (match int_value n with Some v -> v | None -> 0))
                 else if String.length n >= 2 && n.[0] = '"' then LStr (cstr (String.sub n 1 (String.length n - 2)))    (* next_literal strips the quotes *)
                 else LStr (cstr n) in
       (TLit lit :: l, r)
